@@ -49,4 +49,19 @@ AdditiveHolds(E, Vx, Vy, om, variant) ==
 AntisymHolds(E, Vx, Vy, om, variant) == \A n \in 1..Len(E) : OmegaBand(E, Vy, Vx, n, variant) = -om[n]
 (* Fermi-sea partial sums: numerator of sum_{n <= j} Omega_n *)
 SeaNum(om, j) == SumR(1, j, LAMBDA n : om[n])
+
+(* Degenerate spectra (E non-decreasing).  The trace over a set `inn` that consists of WHOLE multiplets involves only the
+   differences E_l - E_n with n inside and l outside (the terms inside a multiplet never enter: Omega.nn sums over l in
+   `out` only), so it is well defined although single-band values are not:
+        trace_z(inn) = OmegaNumIO(E, Vx, Vy, inn) / DenIO(E, inn) *)
+DenIO(E, inn) ==
+   ProdR(1, Len(E), LAMBDA n : IF n \notin inn THEN 1 ELSE
+        ProdR(1, Len(E), LAMBDA l : IF l \in inn THEN 1 ELSE Sq(E[l] - E[n])))
+OmegaNumIO(E, Vx, Vy, inn) ==
+   LET dd == DenIO(E, inn) IN
+   SumR(1, Len(E), LAMBDA n : IF n \notin inn THEN 0 ELSE
+        SumR(1, Len(E), LAMBDA l : IF l \in inn THEN 0 ELSE
+             -2 * CMul(Vx[n][l], Vy[l][n])[2] * (dd \div Sq(E[l] - E[n]))))
+(* the spectrum with the levels j and j + 1 made degenerate *)
+Collapse(E, j) == [k \in 1..Len(E) |-> IF k = j + 1 THEN E[j] ELSE E[k]]
 =============================================================================
